@@ -13,6 +13,7 @@ def apply(ctx, W):
     fd, ud = fn_into_verus(ctx, g, "Attributes::doc", ret="r", tags=("C17", "C12"), ensures=[
         ("r is Ok ==> opt_string_view(r->Ok_0) == spec_doc(self.0@)", ("C17",), "doc-lines-joined-in-order"),
         ("r is Ok ==> forall|k: int| 0 <= k < self.0@.len() ==> !doc_bad(#[trigger] self.0@[k])", ("C17",), "doc-non-string-rejected"),
+        ("r is Err ==> has_doc_bad(self.0@)", ("C03", "C17"), "doc-error-only-if-non-string"),
     ])
     ld = rules.loop_by_header(g, fd, "self.0")
     rules.for_to_index_loop(ctx, g, ud, ld, seq="self.0", ivar="i_d")
